@@ -333,14 +333,14 @@ impl TypePathType {
                 compact_type_path,
             } => {
                 let inner = inner.to_syn_type(alloc_crate_path);
-                let path = if *is_field {
+                if *is_field {
                     // compact fields can use the inner compact type directly and be annotated with
-                    // the `compact` attribute e.g. `#[codec(compact)] my_compact_field: u128`
-                    parse_quote! ( #inner )
+                    // the `compact` attribute e.g. `#[codec(compact)] my_compact_field: u128`.
+                    // The inner type is not necessarily a path: `()` can be compact encoded, too.
+                    inner
                 } else {
-                    parse_quote! ( #compact_type_path<#inner> )
-                };
-                syn::Type::Path(path)
+                    syn::Type::Path(parse_quote! ( #compact_type_path<#inner> ))
+                }
             }
             TypePathType::BitVec {
                 bit_order_type,
